@@ -7,6 +7,7 @@ from pyvc.report import Check, run_check, seed
 from pyvc.smt import budget_ms
 from pyvc import native_cnf as N
 from checks.cnf_common import run_plan, QUAL
+from checks.wp_common import run_wp
 
 
 def dispatch_checks(ck, tier):
@@ -117,12 +118,14 @@ def main(tier):
                "non-trivial = real encoder ran under symbolic ids and its obligations were generated" % (maxn, "40" if big else "2n+3"))
     ck.exhaustive = False
     run_plan(ck, plan, budget_ms(tier), native_limit=7 if not big else 9, prop_prefix="C10.")
+    run_wp(ck, ["int_to_binary"], budget_ms(tier), prefix="C10.")
     dispatch_checks(ck, tier)
     int_to_binary_native(ck, tier)
     ck.trust("z3 / cvc5", "pycryptosat (native replay, dispatch check)", "CPython semantics of the executed encoder code")
     ck.assume("Lemma DE (paper): definitions of fresh variables by smaller ones have exactly one satisfying extension",
               "ids are distinct positive variables not above the fresh counter (the property's precondition)",
-              "int_to_binary(k) evaluated concretely per shape")
+              "int_to_binary(k) evaluated concretely per shape (its contract — minimal binary digits of k — is proved for all k by pyvc.wp)",
+              "pyvc.wp encoding: mathematical integers, floor division by fresh quotient/remainder, lists as (array,length) values without aliasing")
     return ck.finish()
 
 
